@@ -95,9 +95,38 @@ def run(ctx):
             ctx.ob("C13.ops", f"{LDM}.ldm_constants.OPERATOR_MAPPING", f"entry:{sym}", ok,
                    f"'{sym}' is implemented as `{unparse(body)}`", loc)
     wl = mod.funcs.get("_wrap_like_operator")
-    src = norm(unparse(wl.node)) if wl else ""
-    ctx.ob("C13.ops", f"{LDM}.ldm_constants._wrap_like_operator", "negation", ("return(notresult)ifnegateelseresult" in src or "returnnotresultifnegateelseresult" in src),
-           "notlike is the exact negation of like", wl.loc if wl else "")
+    if wl is None:
+        raise AnalysisError("C13: _wrap_like_operator vanished")
+    # negation is part of the per-value predicate on BOTH paths (query object / raw value): a negated query object (`~q`)
+    # also matches documents on which the attribute path does not resolve, the in-memory back-end does not
+    inner = [n for n in wl.node.body if isinstance(n, ast.FunctionDef)]
+    pred_ok, pred_name = False, None
+    for f in inner:
+        rets = [n for n in ast.walk(f) if isinstance(n, ast.Return) and n.value is not None]
+        for r in rets:
+            v = r.value
+            if isinstance(v, ast.IfExp) and unparse(v.test) == "negate" and isinstance(v.body, ast.UnaryOp) and isinstance(v.body.op, ast.Not) \
+                    and unparse(v.body.operand) == unparse(v.orelse):
+                base = v.orelse
+                defs = {n.targets[0].id: n.value for n in ast.walk(f) if isinstance(n, ast.Assign) and isinstance(n.targets[0], ast.Name)}
+                b = defs.get(base.id) if isinstance(base, ast.Name) else base
+                if isinstance(b, ast.Call) and dotted(b.func) == "_value_contains" and len(b.args) == 2 and unparse(b.args[0]) == f.args.args[0].arg \
+                        and unparse(b.args[1]) == wl.params[1]:
+                    pred_ok, pred_name = True, f.name
+    ctx.ob("C13.ops", f"{LDM}.ldm_constants._wrap_like_operator", "negation-in-predicate", pred_ok,
+           f"the per-value predicate `{pred_name}` returns contains(value, reference), negated iff negate" if pred_ok else
+           "no inner predicate of the form `(not contains) if negate else contains` found", wl.loc)
+    outer_rets = [n for n in ast.walk(wl.node) if isinstance(n, ast.Return) and n.value is not None and not any(n in list(ast.walk(f)) for f in inner)]
+    forms = sorted(norm(unparse(r.value)) for r in outer_rets)
+    ok = pred_ok and forms == sorted([f"test_method({pred_name})", f"{pred_name}({wl.params[0]})"])
+    ctx.ob("C13.ops", f"{LDM}.ldm_constants._wrap_like_operator", "negation", ok,
+           "both paths return the predicate's own verdict (query: test(predicate); raw value: predicate(value)) - notlike is the exact negation of like "
+           "per stored value" if ok else f"_wrap_like_operator returns {forms}: negation is applied outside the per-value predicate on some path", wl.loc)
+    inv = [(f2, n) for f2 in list(mod.funcs.values()) + list(P.cls(TDB).methods.values()) for n in ast.walk(f2.node)
+           if isinstance(n, ast.UnaryOp) and isinstance(n.op, ast.Invert)]
+    ctx.ob("C13.missing-attr", f"{LDM}", "no-query-inversion", not inv,
+           "no `~` on query objects in the operator helpers / TinyDB back-end" if not inv else
+           f"`~` applied at {[(f2.short(), n.lineno) for f2, n in inv]}: an inverted TinyDB query matches documents that LACK the attribute", mod.rel + ":1")
     ctx.ob("C13.ops", log_cls.qual[10:], "and-or", lstr == {"AND": "and", "OR": "or"}, f"LogicalOperators strings {lstr}",
            f"{log_cls.module.rel}:{log_cls.node.lineno}")
     # the literals the back-ends test
